@@ -15,6 +15,12 @@
 //! after every array case, and the ops `unpack_n` / `pack_n` / `roundtrip_n` for huge inputs: the model answers outcome class and
 //! result shape, the values are compared with the harness-native coordinate reference below (`nat_unpack` / `nat_pack`), which is
 //! compared with the full model answer on every other array case of the run (`oracle_report` lines carry the count).
+//!
+//! Part 3: giant inputs (`unpack_g` / `pack_g` / `roundtrip_g` on arrays named `shape:@pattern`, 2^20 .. 1.7 * 10^7 elements, built
+//! here and compared IN PLACE with the structured answer of the same native reference; the driver answers the model's order / axis
+//! checks and `native`, or the result shape for lanes up to 200 000 elements; `diff_result` is cross-checked against the text
+//! comparison on the small cases), value relations (constant sources, equal-as-bits twins, palindromic / bit-reversed bytes,
+//! Thue-Morse and periodic words) and count / axis values that wrap modulo 2^64 when multiplied by 8 (`robustness3`).
 use arrharness::*;
 
 // ------------------------------------------------------------------ protocol
@@ -1024,7 +1030,7 @@ fn robustness3(thorough: bool, seed: u64, out: &mut dyn FnMut(String)) {
     for &n in &pf {
         k += 1;
         let pats = ["b0", "b3", "b1", "b2", "b4"];
-        out(format!("pack_g {} none {}", g(&[n], pats[k % 5], n == 16 * M + 1 || thorough), spell(k % 2 == 0, k)));
+        out(format!("pack_g {} none {}", g(&[n], pats[k % 5], n == 16 * M + 1 || (thorough && (n < 16 * M - 7 || n > 16 * M + 17))), spell(k % 2 == 0, k)));
         if thorough && n % 8 == 1 { out(format!("pack_g {} none {}", g(&[n], pats[(k + 1) % 5], true), spell(k % 2 == 1, k))); }
     }
     // (11.b) the same lengths as LANES (ranks 2..4; first / middle / last axis; extents that are / are not multiples of 64)
@@ -1032,7 +1038,7 @@ fn robustness3(thorough: bool, seed: u64, out: &mut dyn FnMut(String)) {
     if thorough { pl.extend(vec![(vec![16 * M + 9, 1], 0), (vec![1, 16 * M + 9, 1], 1), (vec![2, 8 * M + 1], 1), (vec![1, 2, M + 64, 1], 2), (vec![3, M + 1], -1), (vec![M + 65, 3], -2), (vec![1, 1, 1, 16 * M + 1], -1), (vec![2, 4 * M + 3, 2], 1)]); }
     for (sh, ax) in &pl {
         k += 1;
-        out(format!("pack_g {} {ax} {}", g(sh, ["b0", "b1", "b2", "b3"][k % 4], thorough), spell(k % 2 == 0, k)));
+        out(format!("pack_g {} {ax} {}", g(sh, ["b0", "b1", "b2", "b3"][k % 4], false), spell(k % 2 == 0, k)));      // one call (~1.5 s at 2^24 bits by axis)
     }
     // (11.c) flat unpacking above 2^20 / 2^21 BYTES (2^23 / 2^24 bits), byte counts that are / are not multiples of 2^20 and of 64; the
     //        count argument at lengths f32 cannot represent, around the full length, and refused
@@ -1051,17 +1057,17 @@ fn robustness3(thorough: bool, seed: u64, out: &mut dyn FnMut(String)) {
     for sh in &ur { k += 1; out(format!("unpack_g {} none none {}", g(sh, "p1", thorough), spell(k % 2 == 0, k))); out(format!("roundtrip_g {} none {}", g(sh, "p0", false), spell(k % 2 == 1, k))); }
     // (11.d) unpacking lanes above 2^20 bytes
     let mut ul: Vec<(Vec<usize>, isize, &str)> = vec![(vec![1, M + 5], 1, "none"), (vec![M + 3, 1], 0, "none")];
-    if thorough { ul.extend(vec![(vec![2, M + 7], -1, "-5"), (vec![M + 64, 2], 0, "none"), (vec![1, 2, M + 5, 1], 2, "none"), (vec![2, M + 1, 1], -2, "8388609"), (vec![1, 2 * M + 3], 1, "16777217"), (vec![2 * M + 1, 1], -2, "none"), (vec![3, M + 9], 1, "none")]); }
+    if thorough { ul.extend(vec![(vec![2, M + 7], -1, "-5"), (vec![M + 64, 2], 0, "none"), (vec![1, 2, M + 5, 1], 2, "none"), (vec![2, M + 1, 1], -2, "8388609"), (vec![1, 2 * M + 3], 1, "16777217"), (vec![2 * M + 1, 1], -2, "none")]); }
     for (sh, ax, c) in &ul {
         k += 1;
-        out(format!("unpack_g {} {ax} {c} {}", g(sh, ["p0", "p1", "p2", "p3"][k % 4], thorough), spell(k % 2 == 0, k)));
+        out(format!("unpack_g {} {ax} {c} {}", g(sh, ["p0", "p1", "p2", "p3"][k % 4], false), spell(k % 2 == 0, k)));
     }
     // (11.e) the round trip at giant sizes, flat and by axis (the packing half sees 2^23 + 40 .. 2^24 + 8 bits)
     let mut rt: Vec<(Vec<usize>, &str)> = vec![(vec![M + 5], "none"), (vec![2 * M + 1], "none")];
-    if thorough { rt.extend(vec![(vec![1, M + 5], "-1"), (vec![M + 1, 1], "0"), (vec![2, M + 3], "1"), (vec![M + M / 2 + 1], "none"), (vec![2 * M + 1], "0"), (vec![1, 1, M + 65], "2")]); }
+    if thorough { rt.extend(vec![(vec![1, M + 5], "-1"), (vec![M + 1, 1], "0"), (vec![2, M + 3], "1"), (vec![M + M / 2 + 1], "none"), (vec![1, 1, M + 65], "2")]); }
     for (sh, ax) in &rt {
         k += 1;
-        out(format!("roundtrip_g {} {ax} {}", g(sh, ["p0", "p1", "p3"][k % 3], thorough), spell(k % 2 == 0, k)));
+        out(format!("roundtrip_g {} {ax} {}", g(sh, ["p0", "p1", "p3"][k % 3], thorough && *ax == "none"), spell(k % 2 == 0, k)));
     }
     // (11.f) lib giant_shapes() and rank-4 shapes above 2^20 elements along every axis with at most 17 000 lanes (the crate's
     //        apply_along_axis is quadratic in the number of lanes); the quick tier rotates through them with the seed
@@ -1075,9 +1081,9 @@ fn robustness3(thorough: bool, seed: u64, out: &mut dyn FnMut(String)) {
             k += 1; slot += 1;
             let axs = if k % 2 == 0 { ax.to_string() } else { (ax as isize - r as isize).to_string() };
             let mine = thorough || slot % 5 == (seed as usize) % 5;
-            if mine { out(format!("unpack_g {} {axs} {} {}", g(sh, ["p0", "p1", "p2"][k % 3], thorough), if k % 3 == 0 { "-3" } else { "none" }, spell(k % 2 == 0, k))); }
-            if thorough || slot % 3 == (seed as usize) % 3 { out(format!("pack_g {} {axs} {}", g(sh, ["b0", "b1", "b2", "b4"][k % 4], thorough), spell(k % 2 == 1, k))); }
-            if thorough && (n / sh[ax] <= 2500 || ax == 0) { out(format!("roundtrip_g {} {axs} {}", g(sh, "p1", false), spell(k % 2 == 1, k + 1))); }
+            if mine { out(format!("unpack_g {} {axs} {} {}", g(sh, ["p0", "p1", "p2"][k % 3], false), if k % 3 == 0 { "-3" } else { "none" }, spell(k % 2 == 0, k))); }
+            if thorough || slot % 3 == (seed as usize) % 3 { out(format!("pack_g {} {axs} {}", g(sh, ["b0", "b1", "b2", "b4"][k % 4], thorough && n / sh[ax] <= 5000), spell(k % 2 == 1, k))); }
+            if thorough && n / sh[ax] <= 100 { out(format!("roundtrip_g {} {axs} {}", g(sh, "p1", false), spell(k % 2 == 1, k + 1))); }
         }
     }
     // refused giant calls (the checks come before any work)
@@ -1380,6 +1386,6 @@ fn nontrivial(op: &str, args: &[&str]) -> bool {
 }
 
 fn main() {
-    harness_main(Spec { prop: "C19", gen, exec, nontrivial, hang_secs: 20,
-        rule: "exhaustive: all 256 byte values alone x 7 order spellings (absent, enum, &str, String); every shape rank<=3 len<=3 (+ rank-4 shapes: 3 in quick, all of len<=2 and three of len<=3 in thorough) filled so that every byte value occurs, x flat form and every axis (positive and negative spelling) x both orders, unpack and pack(unpack); bit arrays of every length 1..40 (single-bit, constant, alternating, random, values>1) flat and as lanes on every axis position; count from -(8n+2) to 8n+2 flat and selected counts by axis; 21 spellings of the order option as &str and String; out-of-range axes; empty arrays; binary_repr + parse-back for all u8/i8 (all u16/i16 in thorough), boundaries and powers of two +-1 for the wider types; + seeded random arrays rank<=3 len<=5 and rank 4 len<=3 (lane length <=20 for pack). distinct = distinct case lines; non-trivial = array with >=2 elements / |number|>=2. ROBUSTNESS STREAMS: flat byte arrays of 8..4100 bytes (thorough ..8200; around 128/256/1024/2048/4096, byte counts divisible by 8 and not) x both orders, round trip + unpack + count around the length and the 64-bit word boundaries; the same lengths as lanes on every axis position of rank-2/3 arrays (lanes 128..1032 bytes, one lane of 4104 bytes; thorough ..4100x2); bit arrays of 1017..1032, 2041..2056, 8185..8200 bits and 504..32768 bits (thorough ..65537) flat and as lanes, bits and values>1; lib big_shapes() (axis lengths 7..17 in every position, >256/>1024/>4096 elements) flat and along every axis (one axis above 2100 elements), bytes and bits; lib zero_shapes() x 7 axes x 4 order spellings x unpack/pack/round trip/count; seeded random big arrays. By axis above 150 elements (thorough 300; selected cases up to 300 / 2056) the model answers on the reference lane semantics alone (ops *_ref) because the pipeline model of apply_along_axis is quadratic. EVERY unpack/pack/round-trip case is run on the plain receiver (compared), a second time, on Ok(array) through the Result receiver (round trip fully chained), and with every other spelling of the same order (absent/enum/&str/String), receivers alternating; binary_repr through Array::binary_repr, the Result receiver's associated function and Numeric::binary_repr, incl. values around 2^53, 2^62, 2^63, the type limits and seeded full-range values of all ten integer types. PART 2: hidden state - lane families of 9..40 (64, 129; thorough 9..300) bytes / bits sharing a long suffix / prefix / multiset / sum / xor with their neighbour as consecutive lanes of one call (rows and columns, unpack / count / pack / round trip) and as consecutive calls (`seq` lines: several calls on one thread, each compared with the model), order / count / shape changed in between, refused-then-accepted calls, lib collision_shape_pairs back to back in both orders, and an A-B-A re-run of the previous case after EVERY unpack / pack / round-trip case (STATE-DIVERGENCE). Huge: flat packing of 65 528 .. 1 120 000 bits, flat round trips of 8 191 .. 140 000 bytes, lanes of 8 192 .. 8 200 bytes (thorough .. 65 537), every axis (up to 5 000 lanes; the crate is quadratic in the lane count) of lib huge_shapes and of rank 2..4 shapes at 2^14 elements: ops *_n - the model answers outcome class and result shape, the values are compared with a harness-native coordinate reference which is itself compared with the full model answer on every other unpack / pack / round-trip case of the run where it has an opinion (count in the oracle_report sample; the run fails below 1000); full model answers at the thresholds (pack of 65 537 bits, unpack_ref [128,128] / [1,130,130] / [130,130]). Exact lengths: every axis length 1..300 in last and middle position, 31 / 37 / 49 / 1000 / 1001, primes 19..257; axis and count c + 2^8 / 2^16 / 2^32 and negatives; counts around +-65 536; ranks 5..8 along every axis" });
+    harness_main(Spec { prop: "C19", gen, exec, nontrivial, hang_secs: 90,
+        rule: "exhaustive: all 256 byte values alone x 7 order spellings (absent, enum, &str, String); every shape rank<=3 len<=3 (+ rank-4 shapes: 3 in quick, all of len<=2 and three of len<=3 in thorough) filled so that every byte value occurs, x flat form and every axis (positive and negative spelling) x both orders, unpack and pack(unpack); bit arrays of every length 1..40 (single-bit, constant, alternating, random, values>1) flat and as lanes on every axis position; count from -(8n+2) to 8n+2 flat and selected counts by axis; 21 spellings of the order option as &str and String; out-of-range axes; empty arrays; binary_repr + parse-back for all u8/i8 (all u16/i16 in thorough), boundaries and powers of two +-1 for the wider types; + seeded random arrays rank<=3 len<=5 and rank 4 len<=3 (lane length <=20 for pack). distinct = distinct case lines; non-trivial = array with >=2 elements / |number|>=2. ROBUSTNESS STREAMS: flat byte arrays of 8..4100 bytes (thorough ..8200; around 128/256/1024/2048/4096, byte counts divisible by 8 and not) x both orders, round trip + unpack + count around the length and the 64-bit word boundaries; the same lengths as lanes on every axis position of rank-2/3 arrays (lanes 128..1032 bytes, one lane of 4104 bytes; thorough ..4100x2); bit arrays of 1017..1032, 2041..2056, 8185..8200 bits and 504..32768 bits (thorough ..65537) flat and as lanes, bits and values>1; lib big_shapes() (axis lengths 7..17 in every position, >256/>1024/>4096 elements) flat and along every axis (one axis above 2100 elements), bytes and bits; lib zero_shapes() x 7 axes x 4 order spellings x unpack/pack/round trip/count; seeded random big arrays. By axis above 150 elements (thorough 300; selected cases up to 300 / 2056) the model answers on the reference lane semantics alone (ops *_ref) because the pipeline model of apply_along_axis is quadratic. EVERY unpack/pack/round-trip case is run on the plain receiver (compared), a second time, on Ok(array) through the Result receiver (round trip fully chained), and with every other spelling of the same order (absent/enum/&str/String), receivers alternating; binary_repr through Array::binary_repr, the Result receiver's associated function and Numeric::binary_repr, incl. values around 2^53, 2^62, 2^63, the type limits and seeded full-range values of all ten integer types. PART 2: hidden state - lane families of 9..40 (64, 129; thorough 9..300) bytes / bits sharing a long suffix / prefix / multiset / sum / xor with their neighbour as consecutive lanes of one call (rows and columns, unpack / count / pack / round trip) and as consecutive calls (`seq` lines: several calls on one thread, each compared with the model), order / count / shape changed in between, refused-then-accepted calls, lib collision_shape_pairs back to back in both orders, and an A-B-A re-run of the previous case after EVERY unpack / pack / round-trip case (STATE-DIVERGENCE). Huge: flat packing of 65 528 .. 1 120 000 bits, flat round trips of 8 191 .. 140 000 bytes, lanes of 8 192 .. 8 200 bytes (thorough .. 65 537), every axis (up to 5 000 lanes; the crate is quadratic in the lane count) of lib huge_shapes and of rank 2..4 shapes at 2^14 elements: ops *_n - the model answers outcome class and result shape, the values are compared with a harness-native coordinate reference which is itself compared with the full model answer on every other unpack / pack / round-trip case of the run where it has an opinion (count in the oracle_report sample; the run fails below 1000); full model answers at the thresholds (pack of 65 537 bits, unpack_ref [128,128] / [1,130,130] / [130,130]). Exact lengths: every axis length 1..300 in last and middle position, 31 / 37 / 49 / 1000 / 1001, primes 19..257; axis and count c + 2^8 / 2^16 / 2^32 and negatives; counts around +-65 536; ranks 5..8 along every axis. PART 3: giant arrays `shape:@pattern` (2^20 .. 1.7*10^7 elements, built by the harness, compared in place with the native reference; ops *_g - the model answers its order / axis checks and `native`, or the result shape by axis for lanes <= 200 000): flat packing of 2^20+1 .. 2^24+9 bits (thorough every length 2^24-7 .. 2^24+17, up to 17*2^20+1), the same as lanes, flat unpacking of 2^20+1 .. 2^21+3 bytes with counts at 2^24+1 / -7 / -3 (thorough more lengths and counts), lanes of 2^20+3 / 2^20+5 bytes, flat round trips of 2^20+5 / 2^21+1 bytes, lib giant_shapes and rank-4 shapes along every axis with <= 17 000 lanes (quick: seed-rotated share), refused giant calls; the in-place comparison cross-checked against the text comparison on every 7th small case (the run fails below 1000); value relations: constant bit / byte sources of 1..1025 entries flat and as lanes, the same bits spelled with different non-zero values back to back and as neighbouring lanes, palindromic and bit-reversed bytes across the two orders, Thue-Morse words and complements, words of period 7/8/9/64, bytes of period 8/64/1024; count / axis k*2^60+c, k*2^61+c, k*2^62+c, negatives and the isize limits" });
 }
